@@ -386,4 +386,97 @@ PENDING = Harness(
     stubs=STUBS_COMMON,
 )
 
-HARNESSES = [H, CHILD, PENDING]
+
+# ------------------------------------------------------------------------------ L-failed-entry
+FE_OPS = ["add_resource", "add_resource_factory", "get_resource_nowait", "await get_resource", "add_teardown_callback", "enter it again"]
+
+
+def fe_params(tier):
+    return [P("op", 0, 5), P("parent_has", 0, 1)]
+
+
+@guard
+def fe_fn(a, tier):
+    """An entry that FAILS (the context object cannot be registered with its parent) leaves the context un-entered: it accepts nothing."""
+    op, parent_has = pick(a["op"], 6), pick(a["parent_has"], 2)
+
+    class Keyed(Context):
+        """A Context subclass with value equality - which makes its instances unhashable."""
+
+        def __init__(self, parent=None, key=""):
+            super().__init__(parent)
+            self.key = key
+
+        def __eq__(self, other):
+            return isinstance(other, Keyed) and other.key == self.key
+
+    out = {"tds": []}
+
+    async def main():
+        async with Context() as parent:
+            if parent_has:
+                parent.add_resource("inherited", "x", [T0])
+            c = Keyed(parent, "k")
+            try:
+                await c.__aenter__()
+                out["entry"] = None
+            except TypeError as e:
+                out["entry"] = e
+            if out["entry"] is None:
+                await c.__aexit__(None, None, None)
+                return
+            try:
+                if op == 0:
+                    c.add_resource("v", "x", [T1])
+                elif op == 1:
+                    c.add_resource_factory(lambda: "made", "x", types=[T1])
+                elif op == 2:
+                    out["value"] = c.get_resource_nowait(T0, "x", optional=True)
+                elif op == 3:
+                    out["value"] = await c.get_resource(T0, "x", optional=True)
+                elif op == 4:
+                    c.add_teardown_callback(lambda: out["tds"].append("ran"))
+                else:
+                    await c.__aenter__()
+                out["op"] = None
+            except BaseException as e:  # noqa
+                out["op"] = e
+            out["closed"] = c.closed
+            out["view"] = (dict(c.get_resources(T0)) if False else None)
+            out["parent_view"] = sorted(parent.get_resources(T1))
+
+    _, exc, _k = run(main)
+    summary = {"operation_after_the_failed_entry": FE_OPS[op], "parent_holds_a_resource": bool(parent_has)}
+    if exc is not None:
+        return FAIL(f"failed-entry:raised:{type(exc).__name__}", repr(exc), summary)
+    if out.get("entry") is None:
+        return OK(summary, nontrivial=False)  # this Python/implementation managed to enter it: nothing to judge
+    e = out.get("op")
+    if op == 5:
+        # a second attempt fails the same way (or is refused); what matters is that it does not "succeed" into a half-entered context
+        if e is None:
+            return FAIL("failed-entry:second-entry-succeeded", "", summary)
+        return OK(summary, True)
+    if not isinstance(e, RuntimeError):
+        return FAIL(f"failed-entry:{FE_OPS[op]}-accepted-on-a-context-that-was-never-entered:{'returned' if e is None else type(e).__name__}", repr(out), summary)
+    if out["closed"]:
+        return FAIL("failed-entry:reports-closed", "", summary)
+    if out["tds"] or out["parent_view"]:
+        return FAIL("failed-entry:something-changed", repr(out), summary)
+    return OK(summary, True)
+
+
+FAILED_ENTRY = Harness(
+    prop="C13",
+    name="L-failed-entry",
+    fn=fe_fn,
+    params=fe_params,
+    cube=lambda tier: 0,
+    title="a context whose entry failed (unhashable Context subclass entered as a child) has not been entered",
+    bound_text=lambda tier: "Context subclass with value equality (unhashable) created with an explicit parent; its __aenter__ raises TypeError; then one of {" + "; ".join(FE_OPS) + "}",
+    oracle="every operation raises RuntimeError and changes nothing (no resource in the parent, no callback stored, `closed` stays False); a second entry does not succeed",
+    outside="other ways an entry can fail",
+    stubs=STUBS_COMMON,
+)
+
+HARNESSES = [H, CHILD, PENDING, FAILED_ENTRY]
